@@ -5,4 +5,4 @@ From Coq Require Import ExtrOcamlBasic.
 From Ygm Require Import RankMachine.
 Extraction Language OCaml.
 Set Extraction Optimize.
-Extraction "../ocaml/gen/rankmachine.ml" run_rank init_st run wire wires legal_h legal_main.
+Extraction "../ocaml/gen/rankmachine.ml" run_rank init_st run wire wires legal_h legal_main dests_ok hact_ok resp_okb.
